@@ -454,6 +454,30 @@ func runCheck(opts checkOpts) (int, map[string]any) {
 	}
 	tick("assemble")
 	res := runAll(files, opts.timeout, 16, opts.tier == "thorough")
+	// Undecided obligations get a last, uncontended attempt (four at a time, twice the time): under
+	// the full parallel load (16 queries x 3 solvers on 16 cores) a query that needs a few CPU
+	// seconds can miss the wall-clock limit, which would be a false alarm on the unchanged tree.
+	var again []int
+	for i, r := range all {
+		if st := res[i].Status; !r.O.WantSat && st != "unsat" && st != "sat" && st != "error" && st != "disagree" {
+			again = append(again, i)
+		}
+	}
+	if len(again) > 0 && len(again) <= 24 {
+		var files2 []string
+		for _, i := range again {
+			files2 = append(files2, files[i])
+		}
+		res2 := runAll(files2, opts.timeout*2, 4, false)
+		for k, i := range again {
+			if res2[k].Status == "unsat" || res2[k].Status == "sat" {
+				res2[k].Time += res[i].Time
+				res[i] = res2[k]
+			} else {
+				res[i].Time += res2[k].Time
+			}
+		}
+	}
 	tick("solve")
 	solverTime := 0.0
 	byBackend := map[string]int{}
